@@ -31,7 +31,7 @@ import (
 // engcOpts selects the sub-domain of worlds a check wants. The zero value is the general-purpose default.
 type engcOpts struct {
 	Proto             protocol.ConsensusVersion            // "" = drawn among ConsensusFuture (mostly) and ConsensusCurrentVersion
-	Profile           string                               // transaction mix: "" (general), "pay" (payments/closes only), "status" (keyreg/close heavy)
+	Profile           string                               // transaction mix: "" (general), "pay" (payments/closes only), "status" (keyreg/close heavy), "money" (payments, closes, fees, inner payments)
 	Shadow            bool                                 // maintain a second ledger fed the same blocks (via AddBlock) under its own schedule
 	ForceMem          bool                                 // never use on-disk sqlite
 	MaxGroupsPerBlock int                                  // 0 = default 8
